@@ -218,6 +218,11 @@ def flushResp (C : BlockCipher) (key : Bytes) (seen out : Bytes) : Resp :=
     | none => { ran := true, seen := seen, status := 500 }
     | some ct => { ran := true, seen := seen, status := 200, body := asciiBytes (b64Encode ct) }
 
+/-- `flush` when the underlying writer takes only the first `n` bytes of the encrypted reply (a write error, or a short
+write): both branches only LOG — no retry, no other write, no status — so the client sees that prefix of the base64
+ciphertext and nothing else -/
+def writtenPrefix (n : Nat) (r : Resp) : Resp := { r with body := r.body.take n }
+
 /-- `maxBytes` of rest/handler/cryptionhandler.go: the cap for a body of unknown length when no limit is configured -/
 def maxBytes : Int := 1048576
 
